@@ -403,36 +403,29 @@ func fixTransferEncoding(requestMethod string, header Header) ([]string, error) 
 
 	delete(header, "Transfer-Encoding")
 
-	encodings := strings.Split(raw[0], ",")
-	te := make([]string, 0, len(encodings))
-	// TODO: Even though we only support "identity" and "chunked"
-	// encodings, the loop below is designed with foresight. One
-	// invariant that must be maintained is that, if present,
-	// chunked encoding must always come first.
-	for _, encoding := range encodings {
-		encoding = strings.ToLower(strings.TrimSpace(encoding))
-		// "identity" encoding is not recorded
-		if encoding == "identity" {
-			break
-		}
-		if encoding != "chunked" {
-			return nil, &badStringError{"unsupported transfer encoding", encoding}
-		}
-		te = te[0 : len(te)+1]
-		te[len(te)-1] = encoding
+	// The only transfer coding implemented is "chunked", and it must be the only one: anything
+	// else ("identity, chunked", a second Transfer-Encoding line, "chunked, gzip") would be
+	// framed differently by other HTTP/1.1 implementations (request smuggling).
+	if len(raw) != 1 {
+		return nil, &badStringError{"too many transfer encodings", strings.Join(raw, ",")}
 	}
-	if len(te) > 1 {
-		return nil, &badStringError{"too many transfer encodings", strings.Join(te, ",")}
+	if asciiLower(textproto.TrimString(raw[0])) != "chunked" {
+		return nil, &badStringError{"unsupported transfer encoding", raw[0]}
 	}
-	if len(te) > 0 {
-		// Chunked encoding trumps Content-Length. See RFC 2616
-		// Section 4.4. Currently len(te) > 0 implies chunked
-		// encoding.
-		delete(header, "Content-Length")
-		return te, nil
-	}
+	// Chunked encoding trumps Content-Length. See RFC 7230 Section 3.3.3.
+	delete(header, "Content-Length")
+	return []string{"chunked"}, nil
+}
 
-	return nil, nil
+// asciiLower lower-cases the ASCII letters of s only.
+func asciiLower(s string) string {
+	b := []byte(s)
+	for i, c := range b {
+		if 'A' <= c && c <= 'Z' {
+			b[i] = c + 'a' - 'A'
+		}
+	}
+	return string(b)
 }
 
 // Determine the expected body length, using RFC 2616 Section 4.4. This
